@@ -4,32 +4,48 @@ use solang_parser::pt::{self, FunctionTy, Loc};
 use solang_parser::{self, pt::SourceUnit};
 
 use crate::analyzer::ast::{self, Target};
-use crate::analyzer::utils::get_32_byte_storage_variables;
 
 pub fn private_vars_leading_underscore(source_unit: SourceUnit) -> HashSet<Loc> {
     //Create a new hashset that stores the location of each qa target identified
     let mut qa_locations: HashSet<Loc> = HashSet::new();
 
-    let storage_variables = get_32_byte_storage_variables(source_unit.clone(), true, false);
+    let contract_definition_nodes =
+        ast::extract_target_from_node(Target::ContractDefinition, source_unit.into());
 
-    for (variable_name, variable_attribute) in storage_variables {
-        let (option_variable_attributes, loc) = variable_attribute;
+    for contract_definition_node in contract_definition_nodes {
+        //We can use unwrap because Target::ContractDefinition is a source unit part
+        let source_unit_part = contract_definition_node.source_unit_part().unwrap();
 
-        if option_variable_attributes.is_some() {
-            let variable_attributes = option_variable_attributes.unwrap();
+        if let pt::SourceUnitPart::ContractDefinition(contract_definition) = source_unit_part {
+            for part in contract_definition.parts {
+                if let pt::ContractPart::VariableDefinition(box_variable_definition) = part {
+                    //Constants follow a different naming convention
+                    let is_constant = box_variable_definition
+                        .attrs
+                        .iter()
+                        .any(|attr| matches!(attr, pt::VariableAttribute::Constant(_)));
 
-            for attr in variable_attributes {
-                if let pt::VariableAttribute::Visibility(v) = attr {
-                    match v {
-                        pt::Visibility::Private(_) | pt::Visibility::Internal(_) => {
-                            if !variable_name.starts_with('_') {
-                                qa_locations.insert(loc);
-                            }
-                        }
-                        // Public variables
-                        _ => {
-                            if variable_name.starts_with('_') {
-                                qa_locations.insert(loc);
+                    if is_constant {
+                        continue;
+                    }
+
+                    let variable_name = box_variable_definition.name.name;
+                    let loc = box_variable_definition.loc;
+
+                    for attr in box_variable_definition.attrs {
+                        if let pt::VariableAttribute::Visibility(v) = attr {
+                            match v {
+                                pt::Visibility::Private(_) | pt::Visibility::Internal(_) => {
+                                    if !variable_name.starts_with('_') {
+                                        qa_locations.insert(loc);
+                                    }
+                                }
+                                // Public variables
+                                _ => {
+                                    if variable_name.starts_with('_') {
+                                        qa_locations.insert(loc);
+                                    }
+                                }
                             }
                         }
                     }
